@@ -62,7 +62,7 @@ fn main() {
         std::process::exit(vh::lanes::child_main(&c));
     }
     install_panic_hook();
-    let ctx = Ctx { tier, seed, threads, start: Instant::now(), scale, tiny, shard: None };
+    let ctx = Ctx { tier, seed, threads, start: Instant::now(), scale, tiny, shard: None, lane_cap_s: None };
     if let Some(path) = replay {
         let text = std::fs::read_to_string(&path).expect("replay file");
         let v: Value = serde_json::from_str(&text).expect("replay json");
